@@ -3157,7 +3157,7 @@ def run_fuzz(ctx) -> None:
         seeds = [bytes([0]) + bytes.fromhex('0a01080001000200'), bytes([1]) + bytes.fromhex('0a0300'), bytes([2]) + bytes.fromhex('0103000110070f'),
                  bytes([3]) + bytes.fromhex('0600010008350319110100ff00'), bytes([4]) + bytes.fromhex('1001'), bytes([6]) + bytes.fromhex('3503191101'),
                  bytes([7]) + bytes.fromhex('0bef0568697a'), bytes([8]) + bytes.fromhex('020106030312180509414243')]
-    r = fuzz.campaign(ctx, 'checks.c18_pdu_codecs', 'fuzz_pdu', runs=150000, max_len=200, seeds=seeds, name=f'pdu_s{ctx.shard}', timeout=1500)
+    r = fuzz.campaign(ctx, 'checks.c18_pdu_codecs', 'fuzz_pdu', runs=60000, max_len=200, seeds=seeds, name=f'pdu_s{ctx.shard}', timeout=1200)
     ctx.extra.setdefault('fuzz', {})[f'shard{ctx.shard}'] = {k: r[k] for k in ('status', 'executions')}
     ctx.extra['sum_fuzz_executions'] = ctx.extra.get('sum_fuzz_executions', 0) + r['executions']
     for sig, what, data in r['crashes']:
